@@ -17,8 +17,8 @@ use std::sync::mpsc::{channel, Receiver, RecvTimeoutError};
 use std::sync::Mutex;
 use std::time::Duration;
 
-pub const CASE_TIMEOUT_MS: u64 = 4000;
-pub const WALL_TIMEOUT_MS: u64 = 60000;
+pub const CASE_TIMEOUT_MS: u64 = 20000;   // (CPU time; the largest scaled inputs of the thorough tier take 3-4 s in one call on a loaded machine)
+pub const WALL_TIMEOUT_MS: u64 = 120000;
 pub const PARENT_TIMEOUT_MS: u64 = 180000;
 pub const MEM_LIMIT: u64 = 6 << 30;
 
